@@ -9,8 +9,39 @@ WORK = os.path.join(VERIF, "work")
 GUARD = "DISTANCE3D_VERIF"
 
 
+def source_hash():
+    """hash of the library sources under REPO: numba's on-disk cache is keyed per file, so a cached caller in one file can keep
+    the old code of a changed callee in another file; a cache directory per source state rules that out"""
+    import hashlib
+    h = hashlib.sha256()
+    root = os.path.join(REPO, "distance3d")
+    for d, dirs, files in sorted(os.walk(root)):
+        dirs.sort()
+        if "__pycache__" in d:
+            continue
+        for f in sorted(files):
+            if f.endswith(".py"):
+                h.update(os.path.relpath(os.path.join(d, f), root).encode())
+                h.update(open(os.path.join(d, f), "rb").read())
+    return h.hexdigest()[:12]
+
+
+def cache_dir(jit=True):
+    d = os.path.join(CACHE, ("numba_" if jit else "numba_nojit_") + source_hash())
+    if not os.path.isdir(d):
+        os.makedirs(d, exist_ok=True)
+        # keep the cache directories of the few most recent source states only
+        olds = sorted((x for x in os.listdir(CACHE) if x.startswith("numba_") and os.path.join(CACHE, x) != d),
+                      key=lambda x: os.path.getmtime(os.path.join(CACHE, x)))
+        import shutil
+        for x in olds[:-4]:
+            shutil.rmtree(os.path.join(CACHE, x), ignore_errors=True)
+    return d
+
+
 def setup(jit=True):
-    os.environ.setdefault("NUMBA_CACHE_DIR", os.path.join(CACHE, "numba" if jit else "numba_nojit"))
+    os.makedirs(CACHE, exist_ok=True)
+    os.environ.setdefault("NUMBA_CACHE_DIR", cache_dir(jit))
     os.environ[GUARD] = "1"
     if not jit:
         os.environ["NUMBA_DISABLE_JIT"] = "1"
